@@ -486,6 +486,10 @@ func (e *env) main(inClose, closeReturned *bool) {
 		ctx.Yield("close-start:" + id)
 	}
 	defer func() { app.VerifCloseYield = nil }()
+	// hook H4: goroutines of the parallel scanning phase park before they do anything
+	// (only one processor's round is active at a time, so the component name is a unique key)
+	factory.VerifScanYield = func(name string) { ctx.Yield("scan-start:" + name) }
+	defer func() { factory.VerifScanYield = nil }()
 
 	// environment objects
 	var comps []any
@@ -553,7 +557,7 @@ func (e *env) main(inClose, closeReturned *bool) {
 	}
 	for _, sc := range p.Scanners {
 		h := &simrt.Handle{ID: sc.ID, Alias: sc.ID, C: ctx}
-		s := simrt.NewTagScanner(h, sc.Tag)
+		s := simrt.NewTagScanner(h, sc.Tag, sc.NodeType)
 		e.scans[sc.ID] = s
 		comps = append(comps, s)
 		compIDs = append(compIDs, sc.ID)
@@ -609,7 +613,9 @@ func (e *env) main(inClose, closeReturned *bool) {
 		// start from an empty loader list so that the process's own argv plays no role
 		opts = append(opts, app.SetConfigLoader())
 		for _, s := range p.Sources {
-			opts = append(opts, e.sourceOption(s))
+			if !s.Late {
+				opts = append(opts, e.sourceOption(s))
+			}
 		}
 	} else {
 		opts = append(opts, app.SetConfigLoader())
@@ -661,6 +667,33 @@ func (e *env) main(inClose, closeReturned *bool) {
 		obs.Get = map[string]string{}
 		for _, path := range spec.GetPaths {
 			obs.Get[path] = fmt.Sprint(a.Get(path))
+		}
+	}
+	// reload: late sources are added and the configuration is initialised a second time
+	if obs.Panic == "" && !obs.RunErr && !ctx.OverBudget {
+		var late []configure.Loader
+		for _, s := range p.Sources {
+			if s.Late {
+				late = append(late, e.buildLoader(s))
+			}
+		}
+		if len(late) != 0 {
+			ctx.Log("reload", "", "")
+			func() {
+				defer func() {
+					if r := recover(); r != nil {
+						obs.ReloadErr = "panic: " + fmt.Sprint(r)
+					}
+				}()
+				a.Configure.AddLoaders(late...)
+				if err := a.Configure.Initialize(); err != nil {
+					obs.ReloadErr = firstLine(err.Error())
+				}
+			}()
+			obs.Get2 = map[string]string{}
+			for _, path := range spec.GetPaths {
+				obs.Get2[path] = fmt.Sprint(a.Get(path))
+			}
 		}
 	}
 	if len(e.scans) != 0 {
